@@ -187,7 +187,9 @@ func genByzantine(ch *Chooser, cfg *RunConfig, want int) {
 func (w *World) setup() {
 	cfg := w.cfg
 	total := cfg.N + len(cfg.Outsiders)
-	w.keys = NewKeys(0xC0FFEE, total)
+	// member ids: short ("m03"), long with a common prefix (real ids are 20-byte addresses; anything that abbreviates
+	// an id must not confuse two members), or differing in their last byte only
+	w.keys = NewKeysShaped(0xC0FFEE, total, w.ch.Pick("id-shape", 3))
 	w.instance = 7
 	for h := range cfg.Committees {
 		w.comms[h] = cfg.committee(h, w.keys)
